@@ -20,7 +20,7 @@ def main():
         # quick: every (location, kind, command, output state) with a seeded choice of target sets
         groups = {}
         for x in cases:
-            k = (x["cfg"]["loc"], x["cfg"]["kind"], x["cfg"]["cmd"], x["cfg"]["out"], x["cfg"]["uses"])
+            k = (x["cfg"]["loc"], x["cfg"]["kind"], x["cfg"]["cmd"], x["cfg"]["out"], x["cfg"]["uses"], x["cfg"]["nver"])
             groups.setdefault(k, []).append(x)
         cases = []
         for k in sorted(groups):
@@ -42,18 +42,18 @@ def main():
         inside = cfg["out"] == "inside_pkg"
         trace = os.path.join(root, "trace.ndjson")
         lines = []
-        config_line = {"event": "Config", "closure": ["Main", "Imp1", "Imp2"], "labels": ["v0"], "cmd": cfg["cmd"]}
+        config_line = {"event": "Config", "closure": ["Main", "Imp1", "Imp2"], "labels": ["v0", "v1"][:cfg["nver"]], "cmd": cfg["cmd"]}
         outs = cu.out_dirs(root, targets, inside)
         if cfg["out"] == "populated":
             # a previous good run populates the output directories (plus a stale file that a later run must not touch either)
-            cwd, args = cu.write_project(root, targets, inside, uses=cfg["uses"])
+            cwd, args = cu.write_project(root, targets, inside, uses=cfg["uses"], nver=cfg["nver"])
             rc0, o, e, ev = cu.run_yardl(yardl, "generate", cwd, home, args, trace)
             lines += cu.trace_lines(config_line, ev, rc0)
             if rc0 != 0:
                 return case, {"base_rejected": "exit %s: %s" % (rc0, e[-400:])}, lines
             for d in outs.values():
                 open(os.path.join(d, "stale.txt"), "w").write("left over\n")
-        cwd, args = cu.write_project(root, targets, inside, cfg["loc"], cfg["kind"], uses=cfg["uses"])
+        cwd, args = cu.write_project(root, targets, inside, cfg["loc"], cfg["kind"], uses=cfg["uses"], nver=cfg["nver"])
         before = {t: snapshot_tree(d) for t, d in outs.items()}
         pkg_before = snapshot_tree(os.path.join(root, "main")) if inside else None
         rc, o, e, ev = cu.run_yardl(yardl, cfg["cmd"], cwd, home, args, trace)
@@ -132,7 +132,7 @@ def main():
         c.sample(x)
     c.assumptions += ["local directory imports and versions only", "snapshots compare path, sha256, mtime and mode of every file under every configured output directory"]
     c.finish(rule="TLC enumerates (error location x error kind x enabled targets x output directory state x command) and checks the pipeline "
-                  "invariants; every configuration is concretised (main package, two nested imports, a previous version with its own import) and "
+                  "invariants; every configuration is concretised (main package, two nested imports, one or two previous versions with their own imports) and "
                   "run through the real CLI: exit status and before/after snapshots decide, and the hook trace of every run is validated "
                   "against PipelineTrace.tla; distinct = configurations with an injected error", exhaustive=(c.tier == "thorough"))
 
